@@ -361,7 +361,7 @@ PROPS["C10"] = dict(
 )
 
 PROPS["C04"] = dict(
-    modules=["Morlock.Props.C04", "Morlock.Props.Audit.C04Answered", "Morlock.Props.C16", "Morlock.Props.C03"],
+    modules=["Morlock.Props.C04", "Morlock.Props.Audit.C04Answered", "Morlock.Props.C16", "Morlock.Props.C03", "Morlock.Props.C04Legal"],
     streams=["ucidet", "ucirace"],
     timeout=dict(quick=900, thorough=6000),
     level_text="Tie (decides the property): (a) deterministic sessions (go depth N, repeated go, hash on/off, root where a draw can be claimed): exactly one bestmove, equal to the one the "
@@ -379,7 +379,7 @@ PROPS["C04"] = dict(
     rule="deterministic scripts as in C10 with go; 30 (quick) / 400 (thorough) interleaving scripts over 10 scenario families x 5 engines; non-trivial = distinct script",
     partial=["the small-step model UciConc is tied to the code only under the canonical schedule (on every deterministic script of go / go depth n its visible events must equal those of the sequential model, which the stream "
              "ties to the real driver) and through the scripted interleavings; real scheduler/timers are exercised, not enumerated",
-             "'at least one bestmove' is a theorem for the latest go of a quiescent state only; legality / null-move of the printed move: streams only"],
+             "'at least one bestmove' is a theorem for the latest go of a quiescent state only (UciConc); legality and the null move are theorems at the level that carries the move - the search and the sequential driver (C04Legal: bestmove_legal for every table content and every cancellation point, null_only_without_moves / null_iff_full / _skipUnderPromotions / _bernstein for the four wirings, uciGoDepth_bestmove, position_then_go; null_with_legal_moves_model shows that an exploration which may drop every legal move - none of the bundled ones - would print 0000); the small-step model abstracts the move to 'the depth completed', so '0000 only without legal moves' is not stated there"],
     modelled=UCI_MODELLED,
 )
 
